@@ -107,12 +107,24 @@ def _store(case, consumer_ok, operand_set, also=None):
     accepted by consumer_ok(node, argpos) tagged ImplStored (C07: tags carry
     no semantics), or None if nothing was tagged."""
     import copy
+    import warnings
+    from pvf.ptbuild import build_pt
     v = copy.deepcopy(case)
     hit = False
+    # an operation may return its operand as is (sum over no axes, x.real):
+    # the tag then belongs on the node that object was created by
+    try:
+        with warnings.catch_warnings():
+            warnings.simplefilter("ignore")
+            objs = build_pt(case, with_tags=False).nodes
+        root = [next(j for j in range(i + 1) if objs[j] is objs[i])
+                for i in range(len(objs))]
+    except Exception:  # noqa: BLE001
+        root = list(range(len(case["nodes"])))
     for n in v["nodes"]:
         for pos, a in enumerate(n.get("args", [])):
             if a[0] == "n" and a[1] in operand_set and consumer_ok(n, pos):
-                tags = v["nodes"][a[1]].setdefault("tags", [])
+                tags = v["nodes"][root[a[1]]].setdefault("tags", [])
                 if ["ImplStored"] not in tags:
                     tags.append(["ImplStored"])
                 hit = True
